@@ -13,12 +13,9 @@
 //! is then executed against each derive module and the per-event behaviour histories
 //! (bytes written, Ok/Err values, Debug of decoded values, consumed lengths) are diffed.
 
-#[path = "../../bufsim/src/laws.rs"]
-mod laws;
 #[path = "../../bufsim/src/sim.rs"]
 mod sim;
-#[path = "../../bufsim/src/simbuf.rs"]
-mod simbuf;
+use buflaws::laws;
 use tierd_mods as derive_mods;
 #[allow(warnings, unused)]
 mod gen {
